@@ -110,13 +110,27 @@ Section Deps.
   Definition reach (all : list access) (a b : access) : bool :=
     mem_nat (a_id b) (reach_set (length all) all [a_id a]) && negb (Nat.eqb (a_id a) (a_id b)).
 
+  (* two writes of the same value commute whatever their keys (storage) / offsets (single bytes) *)
+  Definition same_value_commute (a b : access) : bool :=
+    a_write a && a_write b &&
+    match a_ins a, a_ins b with
+    | [_; x], [_; y] =>
+      term_eqb (norm2 x) (norm2 y) &&
+      match a_kind a, a_kind b with
+      | ASto, ASto => true
+      | AMem, AMem => match a_size a, a_size b with Some 1, Some 1 => true | _, _ => false end
+      | _, _ => false
+      end
+    | _, _ => false
+    end.
+
   Definition deps_complete (L : list nat) : bool :=
     let fuel := Datatypes.S (length (s_instrs S)) in
     match accesses fuel {| d_bound := []; d_mem := MInit; d_sto := SInit |} L with
     | None => false
     | Some l =>
       forallb (fun a => forallb (fun b =>
-        Nat.eqb (a_id a) (a_id b) || negb (a_write a || a_write b) || provably_apart a b ||
+        Nat.eqb (a_id a) (a_id b) || negb (a_write a || a_write b) || provably_apart a b || same_value_commute a b ||
         reach l a b || reach l b a) l) l
     end.
 End Deps.
